@@ -482,8 +482,9 @@ def c08_compare(rq, impl, model):
     # direct all-or-nothing predicate on the implementation
     f = rq.split(" ")
     dest = f[3] if len(f) > 3 else ""
-    if dest.startswith("nu8:"):
-        dest = dest[4:]
+    for pre in ("nu8:", "long:", "lnkrel:", "lnkabs:"):
+        if dest.startswith(pre):
+            dest = dest[len(pre):]
     st = impl.split(" ")[0]
     after = impl.split("dest=", 1)[1] if "dest=" in impl else ""
     before = {"absent": "absent", "devfull": "devfull", "nodir": "nodir"}.get(dest, "file:" + dest[4:] if dest.startswith("pre:") else "?")
@@ -518,7 +519,7 @@ PROPS["C08"] = {
     ],
     "needs_bin": True,
     "compare": c08_compare,
-    "classify": lambda rq, impl: (rq.split(" ")[3].split(":")[0] if len(rq.split(" ")) > 3 else "?") + ":" + impl.split(" ")[0],
+    "classify": lambda rq, impl: (":".join(x for x in rq.split(" ")[3].split(":") if not all(c in "0123456789abcdef" for c in x) or x == "") if len(rq.split(" ")) > 3 else "?") + ":" + impl.split(" ")[0],
     "nontrivial": lambda rq, impl: True,
     "group": lambda d: d["impl"].split(" ")[0],
     "rule": ("process mode: `lace compile src dest` with an emission failure (out-of-range label reference) injected at "
